@@ -175,6 +175,19 @@ func ruleGLOBALS(c *Ctx) {
 							what = bi.Name()
 						}
 					}
+					// mutating methods of container types from package sync (and friends) whose
+					// receiver is (inside) a package-level variable: a process-wide cache
+					if cal := x.Call.StaticCallee(); cal != nil && cal.Pkg != nil && cal.Signature.Recv() != nil && len(x.Call.Args) > 0 {
+						if pp := cal.Pkg.Pkg.Path(); pp == "sync" || pp == "sync/atomic" || pp == "container/list" {
+							switch cal.Name() {
+							case "Store", "LoadOrStore", "LoadAndDelete", "Delete", "Swap", "CompareAndSwap", "CompareAndDelete", "Range", "Add", "Put", "PushBack", "PushFront", "Clear":
+								if cal.Name() != "Range" {
+									g = globalRoot(x.Call.Args[0], 0)
+									what = "(" + pp + ")." + cal.Name()
+								}
+							}
+						}
+					}
 				}
 				if g == nil || g.Pkg == nil {
 					continue
